@@ -68,13 +68,18 @@ func newArena() *arena {
 		}
 		return unsafe.Slice((*byte)(unsafe.Pointer(p)), size)
 	}
+	// ONE mapping carved into [placeholders below | origins | placeholders above]: the distances between an origin and
+	// its placeholder are bounded by construction (a placeholder is a function of the same text segment: always within
+	// rel32 reach). Address hints for separate mappings are only hints - the kernel may place them terabytes apart.
+	const lowSz, orgSz, highSz = 64 << 20, 192 << 20, 64 << 20
+	all := mm(0x20000000, lowSz+orgSz+highSz)
 	a := &arena{}
-	a.org = mm(0x20000000, 192<<20)
+	low := all[:lowSz]
+	a.org = all[lowSz : lowSz+orgSz]
 	a.orgB = uintptr(unsafe.Pointer(&a.org[0]))
-	a.trp = mm(a.orgB+0x30000000, 64<<20) // placeholders above the origins
+	a.trp = all[lowSz+orgSz:] // placeholders above the origins
 	a.trpB = uintptr(unsafe.Pointer(&a.trp[0]))
-	low := mm(a.orgB-0x18000000, 64<<20) // and below: displacements of both signs
-	a.alt = &arena{trp: low, trpB: uintptr(unsafe.Pointer(&low[0]))}
+	a.alt = &arena{trp: low, trpB: uintptr(unsafe.Pointer(&low[0]))} // and below: displacements of both signs
 	return a
 }
 
